@@ -265,6 +265,29 @@ def c17_commute_optional(i1: int, i2: int, swapped: bool, has_hi: bool, hi_is_no
     return b["x"] is v["a"] and b["lo"] is v["lo"] and b["y"] is v["b"] and b.get("hi") is want_hi
 
 
+# ---------------------------------------------------------------- class 18: commutation of a pattern with a VARIADIC commutative op
+def c18_commute_variadic(i1: int, i2: int, n_in: int, swapped: bool) -> bool:
+    """Add(Max(x, y, z), w) under commute=True: Max is in the commutative list but has three operands here; generating the variants
+    must not fail, and the variants must match the host in either operand order of the (binary) Add
+    vp-pre: 0 <= i1 < 6 and 0 <= i2 < 5 and 1 <= n_in <= 3
+    """
+    ops1 = OPS + ["Max"]
+    try:
+        rules = RR.RewriteRule(lambda op, x, y, z, w: op.Add(op.Max(x, y, z), w), lambda op, x, y, z, w: op.Identity(x)).commute()
+    except AssertionError:
+        return False
+    spec = [("", ops1[i1], ["a", "b", "c"][:n_in], [], 1), ("", OPS[i2], ["d", "v0"] if swapped else ["v0", "d"], [], 1)]
+    m, g, n, v = mk(spec, ["a", "b", "c", "d"], ["v1"])
+    matched = [r for r in (rule.match(m, g, n[1]) for rule in rules) if r]
+    expected = ops1[i1] == "Max" and n_in == 3 and OPS[i2] == "Add"
+    if bool(matched) != expected:
+        return False
+    if not matched:
+        return True
+    b = matched[0].bindings
+    return b["w"] is v["d"] and {id(b["x"]), id(b["y"]), id(b["z"])} == {id(v["a"]), id(v["b"]), id(v["c"])}
+
+
 # ---------------------------------------------------------------- class 9: three-node pattern, inner sharing
 P9 = RR.Pattern(lambda op, x, y: op.Mul(op.Add(x, y), op.Neg(y)))
 
@@ -551,6 +574,7 @@ OBLIGATIONS = [
     _ob("c12_commute_const", 300, "constant value: bounded symbolic index into 12 values around the tolerance of 1000.0; op-type index, operand order, commuted or plain pattern symbolic"),
     _ob("c13_optional_attrs", 300, "host leaves symbolic: op-type index, presence of each of three attributes, pattern variant (strict with one / two optional attribute variables, default)"),
     _ob("c14_attr_constants", 300, "pattern constant index (8 constants: int, float, str, ints, floats, strings) x node attribute index (11 typed attributes) x op-type index, all symbolic"),
+    _ob("c18_commute_variadic", 300, "host leaves symbolic: op-type indices, number of operands of the inner node (1..3), operand order of the root"),
     _ob("c17_commute_optional", 300, "host leaves symbolic: op-type indices of the inner and the root node, operand order of the root, presence of the optional third input and whether it is None"),
     _ob("c16_or_commit", 300, "host leaves symbolic: two op-type indices and which value (the inner node's output / its input / another input) is the root's second operand"),
     _ob("c15_or_shared_node", 300, "host leaves symbolic: four op-type indices, whether the root's second operand is the node under the first alternative or a sibling, and the sibling's input"),
